@@ -41,6 +41,18 @@ def _c05_after_valuation(c, br, legs, nlv, label):
 def _c05_weights(c, br, legs, nlv, label):
     if not (nlv > 0):
         return
+    # the snapshot object handed to the track record reports the same account
+    ctxt = br.context()
+    c.prove_eq("C05:%s:context.nlv" % label, ctxt.nlv, nlv)
+    for leg in legs:
+        if leg.contract in br._holdings_quantity:
+            c.prove_eq("C05:%s:context.nr_contracts" % label, ctxt.nr_contracts.get(leg.contract, 0.0),
+                       br._holdings_quantity[leg.contract])
+            c.prove_eq("C05:%s:context.margins" % label, ctxt.margins.get(leg.contract, 0.0),
+                       br._holdings_margins.get(leg.contract, 0.0))
+            q = br._holdings_quantity[leg.contract]
+            c.prove_eq("C05:%s:context.values=q*liq*m" % label, ctxt.values.get(leg.contract, 0.0),
+                       q * leg.liq(q) * leg.m if q != 0 else 0.0)
     w = br.holdings_weights()
     for leg in legs:
         if leg.contract in br._holdings_quantity:
